@@ -47,6 +47,7 @@ from .messages import (
 )
 from skepticoin.__version__ import __version__
 import random
+from skepticoin.cheating import KNOWN_HASHES
 from skepticoin.consensus import validate_block_by_itself, validate_block_in_coinstate
 
 LISTENING_SOCKET = "LISTENING_SOCKET"
@@ -481,9 +482,11 @@ class ConnectedRemotePeer(RemotePeer):
             coinstate_changed = coinstate_prior.add_block_no_validation(block)
             self.local_peer.disk_interface.save_block(block)
 
-            if header.in_response_to == 0 or block.height % IBD_VALIDATION_SKIP == 0:
+            if header.in_response_to == 0 or block.height % IBD_VALIDATION_SKIP == 0 or block.height in KNOWN_HASHES:
                 # Validation is very slow, and we don't have to validate every block in a blockchain, so
-                # during IBD, we only validate every Nth block where N := IBD_VALIDATION_SKIP.
+                # during IBD, we only validate every Nth block where N := IBD_VALIDATION_SKIP. Blocks at a checkpointed
+                # height are always looked at: for those, validation is just the (cheap) comparison with the checkpoint,
+                # and without it an alternative history could be downloaded right past a checkpoint.
                 # Because the BLOCKS are part of a CHAIN of hashes, every valid block[n] guarantees a valid
                 # block[n-1]. Just to keep things clean, we avoid writing unvalidated blocks to disk until
                 # their next "validated descendent" is encountered (this is unnecessary, but neat).
